@@ -153,9 +153,9 @@ Proof. exact bytes_literal_refuted. Qed.
 Print Assumptions C15_bytes_literal_refuted.
 
 (* FLOAT / IMAGINARY literals: the text handed to str::parse::<f64> is exactly the literal's own
-   digits (exponent marker normalised to e, suffix dropped); an exponent without digits is an
+   digits (exponent marker normalised to e, sign - or + kept as written, suffix dropped); an exponent without digits is an
    Invalid token, never a number.  Text -> f64 itself is Rust's parser (not modelled). *)
-Theorem C15_float_literal_text : forall (U : uclass) (ip fp : list N) (ex : option (bool * bool * list N)) (rest : list N),
+Theorem C15_float_literal_text : forall (U : uclass) (ip fp : list N) (ex : option (bool * esign * list N)) (rest : list N),
   ip <> [] -> digits ip -> digits fp -> exp_ok ex -> stops rest ->
   lex_first U (ip ++ 46 :: fp ++ exp_src ex ++ rest) = Ok ([TFloat (ip ++ 46 :: fp ++ exp_acc ex)], rest).
 Proof. exact float_literal_text. Qed.
@@ -164,10 +164,19 @@ Print Assumptions C15_float_literal_text.
 Theorem C15_float_suffix_imag_text : forall (U : uclass) (ip : list N), ip <> [] -> digits ip ->
   (forall (up : bool) rest, lex_first U (ip ++ (if up then 70 else 102) :: rest) = Ok ([TFloat ip], rest)) /\
   (forall k rest, In k [105; 73; 106; 74] -> lex_first U (ip ++ k :: rest) = Ok ([TImag ip], rest)) /\
-  (forall (up neg : bool) rest, stops rest ->
-     lex_first U (ip ++ (if up then 69 else 101) :: (if neg then [45] else []) ++ rest) = Ok ([TInvalid IBadFloat], rest)).
+  (forall (up : bool) (sg : esign) rest, stops rest ->
+     lex_first U (ip ++ (if up then 69 else 101) :: sign_text sg ++ rest) = Ok ([TInvalid IBadFloat], rest)).
 Proof. exact float_suffix_imag_text. Qed.
 Print Assumptions C15_float_suffix_imag_text.
+
+(* <digits>e[sign]<digits> without a fraction, sign none, - or + (1e21, 1e-7, 1e+21 - the form JSON
+   encoders print): the text handed on is the digits, e, the sign as written, the exponent digits *)
+Theorem C15_float_exponent_text : forall (U : uclass) (ip : list N) (up : bool) (sg : esign) (e rest : list N),
+  ip <> [] -> digits ip -> e <> [] -> digits e -> stops rest ->
+  lex_first U (ip ++ (if up then 69 else 101) :: sign_text sg ++ e ++ rest) =
+  Ok ([TFloat (ip ++ 101 :: sign_text sg ++ e)], rest).
+Proof. exact float_exponent_text. Qed.
+Print Assumptions C15_float_exponent_text.
 
 (* non-vacuity: the theorems speak about real literals, and the hypotheses are satisfiable *)
 Example C15_nonvacuous :
@@ -179,5 +188,7 @@ Example C15_nonvacuous :
   lex_string 34 [92; 117; 123; 49; 49; 48; 48; 48; 48; 48; 48; 48; 125; 34] = Ok (Some IUTooBig, [], []) /\
   u_digits_checked 0 [49; 49; 48; 48; 48; 48; 48; 48; 48; 125] = Panic /\   (* F13, as found *)
   (exists r, parse_format_string U_ascii accept_all [123; 120; 125; 125; 125] = Ok (inr r)) /\
-  parse_format_string U_ascii accept_all [125] = Ok (inl FUnmatchedRight).
+  parse_format_string U_ascii accept_all [125] = Ok (inl FUnmatchedRight) /\
+  lex U_ascii [49; 101; 43; 50; 49] = Ok [TFloat [49; 101; 43; 50; 49]] /\                 (* 1e+21 *)
+  lex U_ascii [50; 46; 53; 69; 43; 51] = Ok [TFloat [50; 46; 53; 101; 43; 51]].          (* 2.5E+3 *)
 Proof. repeat split; try reflexivity; try (cbn; lia). eexists; reflexivity. Qed.
